@@ -280,6 +280,10 @@ class Ctx:
         r = tlc(self, module, cfg=cfg, workers=1, timeout=timeout, heap=heap)
         viol = printed_json(r, "VIOL")
         drift = printed_json(r, "DRIFT")
+        # NOTE lines: the specification covers more of the system than the property states; a disagreement there is
+        # recorded in the evidence (notes.beyond_property) and never changes the verdict or the exit status
+        for n in printed_json(r, "NOTE")[:20]:
+            self.notes.setdefault("beyond_property", []).append(n)
         if not r.ok:
             raise Fatal("trace validation did not complete for %s (rc=%s, %d lines):\n%s" % (module, r.rc, nlines, r.out[-6000:]))
         self.notes.setdefault("trace_validation", []).append(
